@@ -3,7 +3,7 @@
 # applies, existing suite passes, demo fails with it and passes without it.
 set -u
 id=$1
-S=/verif/seeded/$id
+S=${SEEDDIR:-/verif/seeded}/$id
 export GOFLAGS=-mod=mod GOPROXY=off GOSUMDB=off GOTOOLCHAIN=local
 W=$(mktemp -d /tmp/seedverify-XXXXXX)
 rmdir $W
